@@ -23,14 +23,14 @@ def deep_round_factory(tol):
     for i,j in enumerate(args):
       if isinstance(j, float): _args[i] = round(j, tol) # don't round int
       elif isinstance(j, (str, unicode, type(BaseException()))): continue
-      elif isinstance(j, dict): _args[i] = deep_round(**j)[1]
+      elif isinstance(j, dict): _args[i] = dict(zip(j.keys(), deep_round(*j.values())[0])) # keys need not be str
       elif isiterable(j): #XXX: fails on the above, so don't iterate them
         jtype = type(j)
         _args[i] = jtype(deep_round(*j)[0])
     for i,j in kwds.items():
       if isinstance(j, float): _kwds[i] = round(j, tol)
       elif isinstance(j, (str, unicode, type(BaseException()))): continue
-      elif isinstance(j, dict): _kwds[i] = deep_round(**j)[1]
+      elif isinstance(j, dict): _kwds[i] = dict(zip(j.keys(), deep_round(*j.values())[0])) # keys need not be str
       elif isiterable(j): #XXX: fails on the above, so don't iterate them
         jtype = type(j)
         _kwds[i] = jtype(deep_round(*j)[0])
